@@ -502,3 +502,14 @@ Theorem C16_certs_is_the_function_signatures_are_checked_under :
     CertSelect.md_certs (Glue_certs.abs_store num st) (Some eid) use = Some (map num l).
 Proof. intros st eid use l. exact (Glue_certs.md_certs_agree_canonical st eid use l). Qed.
 Print Assumptions C16_certs_is_the_function_signatures_are_checked_under.
+
+(* GLUE to C01 (Proofs/Glue_xsw.v): the pre-check of parse_and_check_signature (Model/MdSig.v md_precheck) is, on the
+   document embedded into C01's document model, either "the single Reference is to the whole document" or C01's
+   pre-check (sigver._enveloped_signature_ok) for the root element under its own name and ID. *)
+From PV Require Model.Xsw Proofs.Glue_xsw.
+Theorem C16_md_precheck_is_C01_precheck_on_the_root :
+  forall n i pl kids,
+    md_precheck (El n i pl kids) =
+    Glue_xsw.whole_ref (El n i pl kids) || Xsw.precheck (Glue_xsw.emb (El n i pl kids)) (N.succ n) i.
+Proof. exact Glue_xsw.md_precheck_char. Qed.
+Print Assumptions C16_md_precheck_is_C01_precheck_on_the_root.
